@@ -476,7 +476,9 @@ func (c *SpecCtx) quant(e *ast.CallExpr, forall bool) *Val {
 	v := Var(vn, SInt)
 	saved, had := c.env[id.Name]
 	c.env[id.Name] = intV(v)
+	c.x.inQuant++
 	body := c.eval(e.Args[3]).T
+	c.x.inQuant--
 	if had {
 		c.env[id.Name] = saved
 	} else {
@@ -609,6 +611,37 @@ func (c *SpecCtx) call(e *ast.CallExpr) *Val {
 			// wrap(expr, "uint32")
 			v := c.eval(e.Args[0])
 			return intV(wrapTo(v.T, convNames[c.strArg(e.Args[1])]))
+		case "contents":
+			// contents(s): the backing array of a byte/int slice as an SMT array (for ufun arguments)
+			v := c.deref(c.eval(e.Args[0]))
+			if v.K != kSlice {
+				c.fail("contents() of non-slice")
+			}
+			et := v.Typ.Underlying().(*types.Slice).Elem()
+			ls := flatten(et)
+			if len(ls) != 1 {
+				c.fail("contents() needs a slice of scalars")
+			}
+			key := x.elemRoot(et) + "|"
+			var arr *Term
+			if c.heap != nil {
+				arr = x.heapIn(c.st, *c.heap, key, ls[0].Sort)
+			} else {
+				arr = x.heapGet(c.st, key, ls[0].Sort)
+			}
+			return scalar(Select(arr, v.Arr), nil)
+		case "offset":
+			v := c.deref(c.eval(e.Args[0]))
+			if v.K != kSlice {
+				c.fail("offset() of non-slice")
+			}
+			return intV(v.Off)
+		case "arrayof":
+			v := c.deref(c.eval(e.Args[0]))
+			if v.K != kSlice {
+				c.fail("arrayof() of non-slice")
+			}
+			return intV(v.Arr)
 		case "fresh":
 			v := c.eval(e.Args[0])
 			switch v.K {
@@ -631,6 +664,29 @@ func (c *SpecCtx) call(e *ast.CallExpr) *Val {
 		}
 		if sf, ok := x.w.Specs[id.Name]; ok {
 			return c.specCall(sf, e.Args)
+		}
+		if uf, ok := x.w.UFuns[id.Name]; ok {
+			if len(e.Args) != len(uf.Args) {
+				c.fail("ufun %s expects %d arguments", uf.Name, len(uf.Args))
+			}
+			x.declareFun(c.st, uf.Name, uf.Args, uf.Res)
+			var ts []*Term
+			for i, a := range e.Args {
+				v := c.eval(a)
+				if v.K != kScalar || v.T.sort != uf.Args[i] {
+					c.fail("ufun %s: argument %d has the wrong sort", uf.Name, i)
+				}
+				ts = append(ts, v.T)
+			}
+			var typ types.Type
+			if uf.Res == SInt {
+				typ = types.Typ[types.Int]
+			} else if uf.Res == SBool {
+				typ = types.Typ[types.Bool]
+			} else if uf.Res == SStr {
+				typ = types.Typ[types.String]
+			}
+			return scalar(app(uf.Res, uf.Name, ts...), typ)
 		}
 		// named type conversion (e.g. Size(x), Cookie(x))
 		if c.pkg != nil {
@@ -895,24 +951,33 @@ func (c *SpecCtx) modTarget(e ast.Expr) []modTarget {
 			if mt, ok := s.Typ.Underlying().(*types.Map); ok {
 				var out []modTarget
 				for _, k := range x.mapKeys(mt) {
-					out = append(out, modTarget{key: k.key, sort: SArr(mapKeySort(mt), k.sort), base: s.T})
+					out = append(out, modTarget{key: k.key, sort: k.sort, base: s.T})
 				}
 				return out
 			}
 		}
 		c.fail("modifies: unsupported index target")
 	case *ast.CallExpr:
+		// elems(s): every element of the backing array of s
+		if id, ok := e.Fun.(*ast.Ident); ok && id.Name == "elems" {
+			s := c.deref(c.eval(e.Args[0]))
+			if s.K != kSlice {
+				c.fail("modifies: elems() of non-slice")
+			}
+			et := s.Typ.Underlying().(*types.Slice).Elem()
+			var out []modTarget
+			for _, lf := range flatten(et) {
+				out = append(out, modTarget{key: x.elemRoot(et) + "|" + lf.Path, sort: lf.Sort, base: s.Arr})
+			}
+			return out
+		}
 		// mapof(m): whole map
 		if id, ok := e.Fun.(*ast.Ident); ok && id.Name == "mapof" {
 			s := c.deref(c.eval(e.Args[0]))
 			mt := s.Typ.Underlying().(*types.Map)
 			var out []modTarget
 			for _, k := range x.mapKeys(mt) {
-				srt := k.sort
-				if !strings.HasSuffix(k.key, "#len") {
-					srt = SArr(mapKeySort(mt), k.sort)
-				}
-				out = append(out, modTarget{key: k.key, sort: srt, base: s.T})
+				out = append(out, modTarget{key: k.key, sort: k.sort, base: s.T})
 			}
 			return out
 		}
